@@ -147,13 +147,16 @@ CLAIMED = {
    text="Machine-checked theorems (Lean 4). Repository code: the identity query returns the document; conversion to and from serde_json::Value is "
         "lossless on library values. JSON text layer (serde_json's, modelled): parsing the compact or pretty printed text of a value yields "
         "the value, for every nesting below the parser's limit, every string (all code points, escapes), every integer in the u64 / negative "
-        "i64 range — 4 lemma files, induction over values with fuel/depth invariants — under one stated hypothesis about doubles "
-        "(FloatRoundTrips: parse(print f) = f), which is known to fail by <= 1 ulp for some doubles with serde_json's default parser; an "
-        "unconditional float-free corollary is proved. The `json` stream runs random JSON texts (escapes, surrogate pairs, duplicate keys, "
+        "i64 range — 4 lemma files, induction over values with fuel/depth invariants — and every double in the property's exact domain: the "
+        "number parser is proved correctly rounded for significands up to 2^53 with decimal exponents within +-22 (one IEEE rounding of an "
+        "exact product/quotient of exactly representable doubles), the shortest-digits printer is proved to print a numeral that rounds "
+        "back, and the two are composed through all five print layouts (C08_float_roundtrip_exact_domain, 5 lemma files). Outside that "
+        "domain the float round trip stays a stated hypothesis (FloatRoundTrips), which is false for some doubles with serde_json's "
+        "default parser: a machine-checked counterexample (7205759403792820.0 re-reads as ...819.0, replayed on the real code) is kept. The `json` stream runs random JSON texts (escapes, surrogate pairs, duplicate keys, "
         "integers across/beyond i64/u64, decimals inside/outside the exact domain, deep nesting, malformed texts) through from_json, `@`, "
         "to_string, re-parse and Value conversions, judged by an independent Python oracle (exact for <= 15 digits & |exp| <= 22, 2 ulp otherwise).",
-   note="PARTIAL for the text layer: decimal<->double algorithms are serde_json's — modelled and validated by the stream, not verified; the float "
-        "round trip is a hypothesis in the theorem and a measured <= 2 ulp bound in the check.",
+   note="PARTIAL for the text layer: decimal<->double algorithms are serde_json's — modelled (from the vendored source) and validated by the stream; on the exact domain their composition is proved, outside it "
+        "the float round trip is a hypothesis in the theorem and a measured <= 2 ulp bound in the check.",
    design="DESIGN.md §7 C08",
    technique="Lean 4 theorems (parse . print = id over a model of serde_json; Value round trip) + json correspondence stream with an exact-arithmetic oracle"),
  "C09": dict(
